@@ -2,7 +2,8 @@
 
   metamorphic (implementation only; this is where regressions are caught)
       op histories (L<i> = Modules.Parse of text i, P = Modules.Process + full dump, G<name> = Modules.GetModule(name) +
-      full dump (a second kind of run, compared with GetModule on the fresh set), T = a read between the runs:
+      full dump (a second kind of run, compared with GetModule on the fresh set), D<i> = text i offered as a file of the
+      search path only (Process may read it by itself through FindModule), T = a read between the runs:
       ToEntry, Print, Namespace, InstantiatingModule, ReadOnly on every module, C = ClearEntryCache; command c18proc of
       harness/go/c18.go = resolve.go's process command plus the reads) of length <= 10 over pools of good
       texts (random resolver schemas, typedef chains through imports, identities and identityrefs, imports whose target
@@ -213,7 +214,13 @@ def fam_submodules():
     # a module whose import arrives late: Process fails in its first stage while the includes of the others are bound
     wa = module("wa", imports=[("wl", "l", None)], body="  leaf q { type l:lt; }\n")
     wl = module("wl", tds=["lt"], body="  typedef lt { type string; }\n")
-    return [sm, s1, s1b, s2, su, sv, lone, gm, vm, v1, v2, vu, wa, wl]
+    # one submodule shared by two revisions of its module; it names identities of the module without prefix
+    hs = module("hs", belongs="hm", prefix="hm", tds=["ht"], body=
+                "  leaf pick { type identityref { base root; } }\n  typedef ht { type identityref { base root; } }\n"
+                "  leaf pick2 { type ht; }\n  identity in-sub { base root; }\n")
+    h1 = module("hm", rev=D1, includes=[("hs", None)], body="  identity root;\n  identity one { base root; }\n")
+    h2 = module("hm", rev=D2, includes=[("hs", None)], body="  identity root;\n  identity two { base root; }\n  identity three { base two; }\n")
+    return [sm, s1, s1b, s2, su, sv, lone, gm, vm, v1, v2, vu, wa, wl, hs, h1, h2]
 
 
 def fam_chains():
@@ -280,6 +287,29 @@ def fam_typeerrs():
     return [l0, l1, l2, xn, ut, ul, ue, uf, ui, i1, i2, tj, tk, tm_]
 
 
+def fam_disk():
+    """modules that Process reads by itself from the search path (op D<i>: the text exists as a file only) and that
+    carry what the later stages of Process act on: shorthand choice members, an augment, a deviation, a tree-level
+    error; an included submodule found on disk as well"""
+    dz = module("dz", tds=["zt"], body=
+                "  typedef zt { type string; }\n  container box { leaf in-box { type zt; } }\n"
+                "  choice ch { leaf short { type string; } container alt { leaf x { type int8; } } }\n"
+                "  augment /dz:box { leaf added { type string; } }\n"
+                "  leaf dev { type string; }\n  deviation /dz:dev { deviate replace { config false; } }\n")
+    dm = module("dm", imports=[("dz", "z", None)], body="  leaf a { type z:zt; }\n  container tgt { leaf t { type string; } }\n")
+    dy = module("dy", tds=["yt"], body="  typedef yt { type int8; }\n  container c { uses nosuchgrouping; }\n")
+    dn = module("dn", imports=[("dy", "y", None)], body="  leaf b { type y:yt; }\n")
+    ds = module("ds", belongs="dp", prefix="dp", body=
+                "  container from-ds { leaf s { type string; } }\n  choice sch { leaf sshort { type string; } }\n"
+                "  augment /dp:own { leaf aug-by-ds { type string; } }\n")
+    dp = module("dp", includes=[("ds", None)], body="  container own { leaf o { type string; } }\n")
+    dq = module("dq", imports=[("dm", "m", None), ("dz", "z", None)], body=
+                "  augment /m:tgt { leaf from-dq { type z:zt; } }\n  deviation /z:box/z:in-box { deviate add { units u; } }\n")
+    for it in (dz, dy, ds):
+        it["file"] = it["mod"] + ".yang"          # may be offered as a file of the search path
+    return [dz, dm, dy, dn, ds, dp, dq]
+
+
 def fam_namespaces():
     n1 = module("n1", ns="urn:shared", body="  leaf a { type string; }\n  container c { leaf b { type int8; } }\n")
     n2 = module("n2", ns="urn:shared", body="  leaf z { type string; }\n")
@@ -293,13 +323,15 @@ def fam_random(rnd):
 
 
 FAMILIES = dict(typedefs=fam_typedefs, identities=fam_identities, revisions=fam_revisions, submodules=fam_submodules,
-                namespaces=fam_namespaces, chains=fam_chains, typeerrs=fam_typeerrs)
+                namespaces=fam_namespaces, chains=fam_chains, typeerrs=fam_typeerrs, disk=fam_disk)
 
 
 def make_pool(goods, rnd):
     """texts for one history: one text per good item (g<i>.yang, index = position in [goods]) followed by bad texts.
     With rnd=None every kind of bad text is present, in a fixed order (the corpus)."""
-    texts = [text_of("g%d.yang" % i, [it]) for i, it in enumerate(goods)]
+    texts = [text_of(it.get("file", "g%d.yang" % i), [it]) for i, it in enumerate(goods)]
+    for t in texts:
+        t["single"] = True                     # one good item; t["items"][0].get("file") = may be offered on disk
     bads = bad_items("q")
     pick = (lambda l: l[0]) if rnd is None else rnd.choice
     extra = []
@@ -337,7 +369,7 @@ def universe(rnd, which=None):
 def gen_ops(rnd, texts, maxlen=10):
     n = rnd.randint(2, maxlen)
     ops, loaded = [], []
-    ngood = sum(1 for t in texts if t["name"].startswith("g") and t["name"][1].isdigit())
+    ngood = sum(1 for t in texts if t.get("single"))
     for _ in range(n - 1):
         x = rnd.random()
         if x < 0.3 and ops:
@@ -348,6 +380,9 @@ def gen_ops(rnd, texts, maxlen=10):
             ops.append("T" if rnd.random() < 0.85 else "C")      # reads between the runs: ToEntry & co., ClearEntryCache
         else:
             i = rnd.randrange(ngood) if x < 0.78 else rnd.randrange(len(texts))
+            if texts[i].get("single") and texts[i]["items"][0].get("file") and rnd.random() < 0.6:
+                ops.append("D%d" % i)          # only as a file of the search path
+                continue
             ops.append("L%d" % i)
             loaded += [it["mod"] for it in texts[i]["items"] if it["good"] and it["kind"] == "m"]
     ops.append("P" if not loaded or rnd.random() < 0.8 else "G" + hx(rnd.choice(loaded)))
@@ -359,12 +394,15 @@ CORPUS = dict(
     namespaces=["L0,P,L1,P,P", "L0,L2,P,L1,P", "L1,P,L0,P", "L0,G6e31,L2,G6e31"],   # n3 augments n1 after GetModule(n1)                               # D55 byNS
     submodules=["L0,L7,L1,L3,P,L2,L4,P", "L0,L7,L1,L3,P,L2,P,P", "L0,P,L1,P,L3,P,L7,P",     # D57, D62, late submodules
                 "L4,L5,P,L0,L2,P,L1,L3,L7,P", "L6,P,L0,L2,P", "L8,L9,P,L10,P,P",
-                "L8,L9,L11,P,L10,P,P", "L8,L9,L12,P,T,L13,P,P", "L0,L2,L12,P,T,L13,P", "L8,L10,L12,T,P,T,C,T,L13,T,P"],   # kept typedefs, reads
+                "L8,L9,L11,P,L10,P,P", "L8,L9,L12,P,T,L13,P,P", "L0,L2,L12,P,T,L13,P", "L8,L10,L12,T,P,T,C,T,L13,T,P",   # kept typedefs, reads
+                "L14,L15,P,L16,P,P", "L15,L14,P,T,L16,P", "L16,L14,P,L15,P"],                                # shared submodule
     typedefs=["L0,L2,L3,P,L1,P", "L4,P,L0,P,L1,P", "L3,P,L2,P,L0,P,P",
               "L0,L2,P,L1,G746d", "L0,L2,L3,G7474,L1,G7474,G746d", "L0,L2,G746d,L8,G746d"],   # GetModule after Parse (tm, tt)                    # D56 re-binding, late targets
     identities=["L2,P,L0,P,L1,P", "L3,L1,P,L0,P,P", "L0,L1,L2,L3,P,P"],                    # D56 memoised errors, D42
     chains=["L0,L1,P,L2,P,L3,P", "L4,L0,P,L1,P", "L2,L0,P,L3,P,L1,P"],                      # failing include, D41
     revisions=["L4,L5,L6,P,L0,P,L1,P,L2,P", "L3,L4,P,L0,P", "L1,L4,P,L3,P,L2,P", "L1,P,L0,P,P"],   # older after newer
+    disk=["D0,L1,P,P", "D0,D2,D4,L1,L3,L5,P,P,P", "D4,L5,P,P,L6,D0,P,P", "D2,L3,P,P", "L1,P,D0,P,P", "D0,L6,P,L1,P,P",   # Process reads
+          "D0,L1,T,P,T,P,L0,P"],                                                                             # from the path
     typeerrs=["L6,P,L3,P,P", "L0,L7,P,L1,P,L2,P", "L4,P,L0,P,L3,P,L1,P,L2,P", "L5,L3,L0,P,L1,P,L2,P",   # Type.resolve
               "L8,L0,P,L1,P,L2,P", "L2,L4,L5,L3,P,L1,P,L0,P",                                           # error paths
               "L11,P,P,L9,P,L10,P,P", "L12,P,P,P", "L13,L9,L11,P,L10,P", "L10,L11,P,L12,P,P"],           # Typedef.resolve
@@ -428,10 +466,12 @@ def is_run(op):
 
 def split_history(ops, loads):
     """per run (P or G) of the history: (indices (into texts) of the loads accepted before it, in load order; the op)"""
-    out, acc, li = [], [], 0
+    out, acc, li, disk = [], [], 0, []
     for op in ops:
         if is_run(op):
-            out.append((list(acc), op))
+            out.append((list(acc), op, list(disk)))
+        elif op.startswith("D"):
+            disk.append(int(op[1:]))
         elif op.startswith("L"):
             if loads[li] == "ok":
                 acc.append(int(op[1:]))
@@ -439,10 +479,22 @@ def split_history(ops, loads):
     return out
 
 
-def batch_for(texts, accop, opts="-"):
-    """the fresh set: exactly the accepted texts, then the same run op"""
-    acc, op = accop
-    sub = [texts[i] for i in acc]
+def only_reads_between(ops, p):
+    """no load and no file offered between the (p-1)-th and the p-th run op"""
+    runs = [k for k, op in enumerate(ops) if is_run(op)]
+    return all(op in ("T", "C") for op in ops[runs[p - 1] + 1: runs[p]])
+
+
+def batch_for(texts, accop, opts="-", loaded=()):
+    """the fresh set: exactly the accepted texts -- those loaded with Parse and those Process has read from the search
+    path by itself ([loaded] = source positions of the modules of the set after the run) -- then the same run op"""
+    acc, op, disk = accop
+    files = {s.rsplit(":", 2)[0] for s in loaded}
+    extra = []
+    for i in disk:
+        if i not in acc and i not in extra and texts[i]["name"] in files:
+            extra.append(i)
+    sub = [texts[i] for i in acc + extra]
     return process_line(sub, ["L%d" % k for k in range(len(sub))] + [op], opts)
 
 
@@ -471,7 +523,7 @@ class Case:
     def __init__(self, fams, texts, ops, opts="-", hops=None):
         self.fams, self.texts, self.ops, self.opts = fams, texts, ops, opts
         # the history without ClearEntryCache, with namespace lookups (c18hist only)
-        self.hops = hops if hops is not None else ["P" if o.startswith("G") else o for o in ops if o != "C"]
+        self.hops = hops if hops is not None else ["P" if o.startswith("G") else o for o in ops if o != "C" and not o.startswith("D")]
 
     def replay(self):
         return dict(families=self.fams, ops=self.ops, hops=self.hops, opts=self.opts, texts=self.texts)
@@ -492,8 +544,8 @@ def metamorphic(res, cases, stats, max_report=3):
         parsed.append(j)
         if j is None:
             continue
-        for acc in split_history(c.ops, j["loads"]):
-            batch_lines.setdefault(batch_for(c.texts, acc, c.opts), None)
+        for r, acc in enumerate(split_history(c.ops, j["loads"])):
+            batch_lines.setdefault(batch_for(c.texts, acc, c.opts, j["loaded"][r]), None)
     keys = list(batch_lines)
     for k, o in zip(keys, run_go(keys)):
         batch_lines[k] = o
@@ -519,10 +571,22 @@ def metamorphic(res, cases, stats, max_report=3):
             stats["process_runs"] += 1
             run = j["runs"][p]
             stats["runs_with_errors" if run["errors"] else "runs_clean"] += 1
-            bl = batch_for(c.texts, acc, c.opts)
+            bl = batch_for(c.texts, acc, c.opts, j["loaded"][p])
             b = parse(batch_lines[bl])
             if b is None or any(l != "ok" for l in b["loads"]) or b["runs"][0] != run:
                 second.append((c, hl, p, run, bl, b))
+            # processing twice = once, directly: two runs of the same kind with nothing but reads in between
+            if p > 0 and accs[p - 1] == acc and only_reads_between(c.ops, p):
+                stats["twice_pairs"] += 1
+                if j["runs"][p - 1] != run:
+                    stats["differences"] += 1
+                    if reported < max_report:
+                        reported += 1
+                        what = "runs #%d and #%d of the history, with only reads in between, differ: %s" % (
+                            p, p + 1, first_diff(j["runs"][p - 1], run))
+                        res.violation("%s; families=%s ops=%s loads=%s" % (what, c.fams, ",".join(c.ops), j["loads"]),
+                                      dict(c.replay(), kind="metamorphic", p_index=p, history_line=hl, batch_line=bl,
+                                           history_dump=run, previous_dump=j["runs"][p - 1], diff=what))
     # Go map order: a few answers of the library still depend on it (C05's subject).  A difference counts only when
     # it is stable: history and batch are run again and must never produce a common dump.
     FL = 4
@@ -724,8 +788,8 @@ def with_ns_ops(rnd, c):
     nss = sorted({it["ns"] for t in c.texts for it in t["items"] if it["good"] and it["ns"]}) + ["urn:none"]
     out = []
     for op in c.ops:
-        if op == "C":
-            continue                      # ClearEntryCache exists in c18proc only
+        if op == "C" or op.startswith("D"):
+            continue                      # ClearEntryCache and files on the search path exist in c18proc only
         if op.startswith("G"):
             op = "P"                      # GetModule = Process + ToEntry
         out.append(op)
@@ -747,7 +811,7 @@ def gen_cases(rnd, n, which=None):
 
 def new_stats():
     return dict(histories=0, nontrivial=0, crashed=0, loads_ok=0, loads_failed=0, process_runs=0, batch_runs=0,
-                runs_with_errors=0, runs_clean=0, differences=0, map_order_dependent=0,
+                runs_with_errors=0, runs_clean=0, differences=0, map_order_dependent=0, twice_pairs=0,
                 corr_cases=0, corr_ops=0, corr_mismatch=0, corr_d43_shaped_loads=0, corr_binds_compared=0, corr_ns=0)
 
 
@@ -793,8 +857,9 @@ def run(res, tier, seed, proof):
         "imports, includes, identity names, number of typedefs); the model never sees the text",
         "type memo modelled per import/include statement, not per Type node; Identity.Values is part of the identity "
         "dictionary in the model",
-        "the file-system fallback of FindModule (Read of name.yang) is not modelled: the harness runs in an empty "
-        "directory with an empty search path",
+        "the file-system fallback of FindModule (Read of name.yang) is not modelled; the metamorphic histories exercise it "
+        "(op D: a text offered as a file of the search path; what Process reads by itself counts as accepted), the "
+        "correspondence histories drop those ops",
         "a difference between history and batch that disappears when both sides are re-run is attributed to Go map "
         "iteration order and counted as map_order_dependent, not reported (none occurs since Process visits the modules in "
         "key order)",
